@@ -34,7 +34,7 @@ LEVEL = "exploration"
 RULE = (
     "(1) AsyncTCPNetworkClient and the server-side client object of a running AsyncTCPNetworkServer (send_packet from tasks other than the handler's): senders x packets in {2x1, 2x2, 3x1} with packets '<' + tag*len + '>\\n' produced as three chunks; pipe capacity {1, 3, 8}; "
     "the peer drains 1 / 3 / all bytes per step, each step placed at any loop-iteration boundary (busy placements = costed deviations, "
-    "bound 3 quick / 5 thorough); (2) raw endpoint, two concurrent send_packet; (3) BFS to fixpoint over the real FairLock with 3 tasks; "
+    "bound 3 quick / 5 thorough); (2) raw endpoint, two concurrent send_packet; (3) BFS to fixpoint over the real FairLock with 3 tasks (arrive, release, release-and-re-acquire back to back inside the hand-off window, cancel a waiter); "
     "(4) two threads on the blocking TCP/UDP clients under the baton scheduler, preemption bound 2; distinct_nontrivial = distinct "
     "(scenario, order of packets on the wire, placement shape)"
 )
@@ -215,22 +215,31 @@ def fl_build(history: tuple[str, ...]) -> dict:
         tasks: list[asyncio.Task | None] = [None] * N
         holders_overlap = {"bad": False}
 
+        again = [False] * N  # set by a "B" event: the holder releases and calls acquire() again at once (back-to-back sends)
+
         async def body(i: int) -> None:
-            state[i] = "waiting"
-            try:
-                await lock.acquire()
-            except asyncio.CancelledError:
-                state[i] = "cancelled"
-                raise
-            if any(s == "holding" for s in state):
-                holders_overlap["bad"] = True
-            state[i] = "holding"
-            order.append(i)
-            try:
-                await release_ev[i].wait()
-            finally:
-                lock.release()
-                state[i] = "done"
+            while True:
+                state[i] = "waiting"
+                try:
+                    await lock.acquire()
+                except asyncio.CancelledError:
+                    state[i] = "cancelled"
+                    raise
+                if any(s == "holding" for s in state):
+                    holders_overlap["bad"] = True
+                state[i] = "holding"
+                order.append(i)
+                try:
+                    await release_ev[i].wait()
+                finally:
+                    lock.release()
+                    state[i] = "done"
+                if not again[i]:
+                    return
+                # no checkpoint between release() and the next acquire(): the call lands in the hand-off window of the lock
+                again[i] = False
+                release_ev[i].clear()
+                arrivals.append(i)
 
         async def settle() -> None:
             for _ in range(8):
@@ -242,6 +251,9 @@ def fl_build(history: tuple[str, ...]) -> dict:
                 arrivals.append(i)
                 tasks[i] = loop.create_task(body(i))
             elif ev[0] == "R":
+                release_ev[i].set()
+            elif ev[0] == "B":
+                again[i] = True
                 release_ev[i].set()
             elif ev[0] == "X":
                 tasks[i].cancel()  # type: ignore[union-attr]
@@ -267,10 +279,12 @@ def fl_enabled(history: tuple[str, ...], st: dict) -> list[str]:
     for i, s in enumerate(st["state"] or ["idle"] * 3):
         if s == "idle" and f"A{i}" not in history:
             evs.append(f"A{i}")
-        elif s == "holding" and f"R{i}" not in history:
+        elif s == "holding":
             evs.append(f"R{i}")
-        elif s == "waiting":
-            evs.append(f"X{i}")
+            if f"B{i}" not in history:
+                evs.append(f"B{i}")  # release and re-acquire back to back (once per task)
+        elif s == "waiting" and f"B{i}" not in history:
+            evs.append(f"X{i}")  # (a task that re-arrived back to back is not cancelled: keeps the FIFO reference simple)
     return evs
 
 
